@@ -1,7 +1,7 @@
 #!/bin/bash
 # Runs every registered check of one tier at one seed; prints one summary line per check (verdict lines + exit code + seconds).
 #   tools/run_all.sh quick|thorough [seed] [props...]
-cd /verif
+cd "$(dirname "$(readlink -f "$0")")/.." || exit 3
 tier=${1:-quick}; seed=${2:-1}; shift; shift
 props=${*:-$(sort tools/registered.txt)}
 for p in $props; do
